@@ -32,6 +32,8 @@ type World struct {
 	mirrorUsed []string
 	overlay  map[string][]byte
 	loadSecs float64
+	constGlobals map[*ssa.Global]*constGlobal
+	constGlobalsUsed map[string]bool
 }
 
 func (w *World) ghostType(name string) types.Type {
